@@ -192,6 +192,9 @@ pub fn run(ctx: &mut Ctx) {
     // ---- grammar stream + skeletons (mutants included: accepted ones must follow the rule too)
     let n = ctx.n(600_000, 8_000_000);
     grammar_stream(ctx, &cfg, n, 4);
+    let nr = ctx.n(4_000, 80_000);
+    realistic_stream(ctx, &cfg, nr, 6);
+    ctx.require("stream:realistic", 1_000);
     skeleton_stream(ctx, &cfg, if quick { 3 } else { 5 });
     ctx.require("tail-accepted", 1_000);
     ctx.require("tail-rejected", 1_000);
